@@ -57,14 +57,17 @@ Record cfg := mkCfg {
   c_seq_clear : bool;        (* CompositeTransform.clear_buffers cascades *)
   c_seq_cond : bool;         (* CompositeTransform.condition_ cascades *)
   c_dense_grid_data : bool;  (* DenseVectorFieldTransform.grid_ re-expresses tensor parameters via data_ *)
-  c_spline_grid_clears : bool (* BSplineTransform.grid_ calls self.clear_buffers() before it assigns self._grid *)
+  c_spline_grid_clears : bool; (* BSplineTransform.grid_ calls self.clear_buffers() before it assigns self._grid *)
+  c_inv_exp_first : bool;     (* SVF / SVFFD.inverse assign the negated ExpFlow BEFORE the update_buffers block uses it *)
+  c_link_unshares : bool      (* ParametricTransform.link_ copies the _parameters dict and drops 'params' from the copy
+                                 when it holds a Parameter, before assigning the link *)
 }.
 Definition cfg_all (c : cfg) : bool :=
   c_data_clears c && c_reset_clears c && c_cond_clears c && c_grid_clears c && c_clear_u c && c_clear_v c
   && c_tensor_updates c && c_update_p c && c_hook c && c_upd_u c && c_inv_flip c && c_inv_link c
-  && c_seq_update c && c_seq_clear c && c_seq_cond c && c_dense_grid_data c && c_spline_grid_clears c.
+  && c_seq_update c && c_seq_clear c && c_seq_cond c && c_dense_grid_data c && c_spline_grid_clears c && c_inv_exp_first c && c_link_unshares c.
 Definition cfg_on : cfg :=
-  mkCfg true true true true true true true true true true true true true true true true true.
+  mkCfg true true true true true true true true true true true true true true true true true true true.
 
 Section TS.
 Variables P G C : Type.
@@ -151,6 +154,7 @@ Definition set_slots (ob : obj) a b m := mkObj (o_kind ob) (o_grid ob) (o_cond o
 Definition set_p (ob : obj) p := mkObj (o_kind ob) (o_grid ob) (o_cond ob) (o_adict ob) (o_pd ob) (o_bpar ob) (o_mpar ob) p (o_u ob) (o_v ob) (o_inv ob) (o_members ob).
 Definition set_uv (ob : obj) u v := mkObj (o_kind ob) (o_grid ob) (o_cond ob) (o_adict ob) (o_pd ob) (o_bpar ob) (o_mpar ob) (o_p ob) u v (o_inv ob) (o_members ob).
 Definition set_inv (ob : obj) i := mkObj (o_kind ob) (o_grid ob) (o_cond ob) (o_adict ob) (o_pd ob) (o_bpar ob) (o_mpar ob) (o_p ob) (o_u ob) (o_v ob) i (o_members ob).
+Definition set_pdid (ob : obj) d := mkObj (o_kind ob) (o_grid ob) (o_cond ob) (o_adict ob) d (o_bpar ob) (o_mpar ob) (o_p ob) (o_u ob) (o_v ob) (o_inv ob) (o_members ob).
 Definition set_members (ob : obj) l := mkObj (o_kind ob) (o_grid ob) (o_cond ob) (o_adict ob) (o_pd ob) (o_bpar ob) (o_mpar ob) (o_p ob) (o_u ob) (o_v ob) (o_inv ob) l.
 
 (* ---------- the attribute `params` ---------- *)
@@ -438,6 +442,15 @@ Definition grid_set (s : state) (o : nat) (g : G) : res unit :=
     else Ok tt (base_grid_set s o g)).
 
 (* ---------- link_, unlink_, copy, inverse ---------- *)
+(* link_: a transform whose (shared) _parameters dict holds a Parameter gets a private copy of the dict
+   without `params` *)
+Definition unshare_params (s : state) (o : nat) (ob : obj) : state :=
+  match get_pd s (o_pd ob) with
+  | Some (Some _) =>
+      if c_link_unshares cf then let (d, s') := new_pd s None in set_obj s' o (set_pdid ob d) else s
+  | _ => s
+  end.
+
 Definition link_set (s : state) (o o' : nat) : res unit :=
   with_obj s o (fun ob => with_obj s o' (fun ob' =>
     if Nat.eqb o o' then Er ValueErr s else
@@ -445,7 +458,7 @@ Definition link_set (s : state) (o o' : nat) : res unit :=
     match o_kind ob with
     | KSeq => Er AttrErr s
     | k =>
-      bind (set_params s o (SetLink o')) (fun _ s1 =>
+      bind (set_params (unshare_params s o ob) o (SetLink o')) (fun _ s1 =>
         with_obj s1 o (fun ob1 =>
           match o_p ob1 with
           | Some _ => Ok tt s1
@@ -491,7 +504,8 @@ Definition inverse1 (s : state) (o : nat) (link upd : bool) : res nat :=
         let ob4 :=
           if has_exp k && upd then
             match o_v ob3 with
-            | Some v => set_uv ob3 (Some (mkU (Snap (u_content s2 v)) (u_grid v) sg)) (o_v ob3)
+            | Some v => set_uv ob3 (Some (mkU (Snap (u_content s2 v)) (u_grid v)
+                                               (if c_inv_exp_first cf then sg else o_inv ob))) (o_v ob3)
             | None => ob3
             end
           else ob3 in
